@@ -35,6 +35,10 @@ func zzC07Mineral(layers int) {
 		g.MINFOS[i] = vFloat("minfos", i)
 		vAssume(g.NAOS[i] >= 0 && g.NFOS[i] >= 0 && g.MINAOS[i] >= 0 && g.MINFOS[i] >= 0)
 		aos0[i], fos0[i], maos0[i], mfos0[i] = g.NAOS[i], g.NFOS[i], g.MINAOS[i], g.MINFOS[i]
+		// outputs of the routine start from arbitrary (stale) values of the previous day
+		g.DN[i] = vFloat("stale_dn", i)
+		l.DUMS[i] = vFloat("stale_dums", i)
+		l.DNH4UMS[i] = vFloat("stale_dnh4", i)
 	}
 	// C15: threshold strictly between wilting point and field capacity of the top layer
 	vAssume(g.WMIN[0] < g.WRED && g.WRED < g.WNOR[0])
@@ -64,6 +68,11 @@ func zzC07Mineral(layers int) {
 		vAssert("C07.counters_monotone", g.MINAOS[i] >= maos0[i] && g.MINFOS[i] >= mfos0[i])
 		sumDN += g.DN[i]
 		dPools += (g.MINAOS[i] - maos0[i]) + (g.MINFOS[i] - mfos0[i])
+		if i > 0 {
+			// below the top layer the source term is exactly that layer's net mineralisation minus its N2O share;
+			// in particular nothing is carried over from the previous day
+			vAssert("C07.source_term_layer_fresh", g.DN[i] <= (g.MINAOS[i]-maos0[i])+(g.MINFOS[i]-mfos0[i])+eps && g.DN[i] >= -eps-0.01*((g.MINAOS[i]-maos0[i])+(g.MINFOS[i]-mfos0[i])))
+		}
 	}
 	// dissolved fertiliser never exceeds fertiliser applied
 	vAssert("C07.dissolved_le_applied", g.UMS >= ums0 && g.UMS <= g.DSUMM+eps)
